@@ -13,7 +13,7 @@
 		true
 	}
 
-	/// @ob printable.one_char @props C04,C10,C13,C18 @kind forall @tier quick @timeout 900 @replay str_printable @bound "every Unicode scalar value as a one-character string" @fns rcgen::string::PrintableString::try_from
+	/// @ob printable.one_char @props C02,C04,C10,C13,C18 @kind forall @tier quick @timeout 900 @replay str_printable @bound "every Unicode scalar value as a one-character string" @fns rcgen::string::PrintableString::try_from
 	#[kani::proof]
 	#[kani::unwind(6)]
 	fn printable_one_char() {
@@ -36,7 +36,7 @@
 		true
 	}
 
-	/// @ob ia5.one_char @props C13,C10 @kind forall @tier quick @timeout 900 @mem 16 @replay str_ia5 @bound "every Unicode scalar value as a one-character string" @fns rcgen::string::Ia5String::try_from
+	/// @ob ia5.one_char @props C02,C04,C10,C13,C18 @kind forall @tier quick @timeout 900 @mem 16 @replay str_ia5 @bound "every Unicode scalar value as a one-character string" @fns rcgen::string::Ia5String::try_from
 	#[kani::proof]
 	#[kani::unwind(6)]
 	#[kani::stub(str::is_ascii, simple_is_ascii)]
@@ -51,7 +51,7 @@
 		}
 	}
 
-	/// @ob teletex.one_char @props C13,C10 @kind forall @tier quick @timeout 900 @replay str_teletex @bound "every Unicode scalar value as a one-character string" @fns rcgen::string::TeletexString::try_from
+	/// @ob teletex.one_char @props C02,C10,C13 @kind forall @tier quick @timeout 900 @replay str_teletex @bound "every Unicode scalar value as a one-character string" @fns rcgen::string::TeletexString::try_from
 	#[kani::proof]
 	#[kani::unwind(6)]
 	fn teletex_one_char() {
@@ -66,7 +66,7 @@
 		}
 	}
 
-	/// @ob bmp.one_char @props C13,C10 @kind forall @tier quick @timeout 1500 @mem 16 @replay str_bmp @bound "every Unicode scalar value as a one-character string" @fns rcgen::string::BmpString::try_from,rcgen::string::BmpString::from_utf16be
+	/// @ob bmp.one_char @props C02,C10,C13 @kind forall @tier quick @timeout 1500 @mem 16 @replay str_bmp @bound "every Unicode scalar value as a one-character string" @fns rcgen::string::BmpString::try_from,rcgen::string::BmpString::from_utf16be
 	#[kani::proof]
 	#[kani::unwind(6)]
 	fn bmp_one_char() {
@@ -84,7 +84,7 @@
 		}
 	}
 
-	/// @ob universal.one_char @props C13,C10 @kind forall @tier quick @timeout 1500 @mem 16 @replay str_universal @bound "every Unicode scalar value as a one-character string" @fns rcgen::string::UniversalString::try_from,rcgen::string::UniversalString::from_utf32be
+	/// @ob universal.one_char @props C02,C10,C13 @kind forall @tier quick @timeout 1500 @mem 16 @replay str_universal @bound "every Unicode scalar value as a one-character string" @fns rcgen::string::UniversalString::try_from,rcgen::string::UniversalString::from_utf32be
 	#[kani::proof]
 	#[kani::unwind(6)]
 	fn universal_one_char() {
